@@ -46,7 +46,8 @@ func runTaskctl(dir string, env []string, timeout time.Duration, args ...string)
 	home := filepath.Join(dir, ".verif-home")
 	os.MkdirAll(home, 0755)
 	base := []string{"PATH=" + os.Getenv("PATH"), "HOME=" + home, "TERM=dumb"}
-	cmd.Env = append(base, env...)
+	// case-specific variables first: their position in the inherited environment is not special
+	cmd.Env = append(append([]string{}, env...), base...)
 	cmd.SysProcAttr = &syscall.SysProcAttr{Setpgid: true}
 	var so, se bytes.Buffer
 	cmd.Stdout, cmd.Stderr = &so, &se
